@@ -11,6 +11,7 @@ Oracle (the property itself, on the real code)
 """
 import concurrent.futures as cf
 import json
+import datetime as _dt
 import os
 
 from .. import c12gen
@@ -419,6 +420,25 @@ def run(chk):
         co_jobs.append(("native", [jline({"op": "hidden_history", "ops": hist["ops"], "probe": user, "again": 0, "outdir": outdir,
                                           "instrument": False, "newparser": True, "struct": False})], {"PYTHONHASHSEED": "0"}))
         co_jobs.append(("native", [jline({"op": "hidden_probe", "probe": user, "again": 0, "outdir": outdir, "struct": False})], {"PYTHONHASHSEED": "0"}))
+    # ... and what a text DECLARES about the project calendar (global vacation days) must not reach the next text with the same
+    # window and resolution: tasks placed by the project calendar (no allocation; a working-time gap) after a twin text
+    # without / with other vacation days
+    for k in range(2 if quick else 12):
+        day0 = rng.choice(["2025-01-06", "2025-03-03", "2025-06-02"])
+        hol = _dt.date.fromisoformat(day0) + _dt.timedelta(days=rng.choice([0, 1, 2]))
+        other = hol + _dt.timedelta(days=rng.choice([1, 2]))
+        body = ('resource r "R" {}\ntask a "A" { effort 4h allocate r }\ntask b "B" { effort 4h allocate r depends !a { gaplength 2d } }\n'
+                'task c "C" { effort 6h }\ntaskreport rep "rep" { formats csv columns id, start, end }\n')
+        head = f'project v{k} "V{k}" {day0} +6w {{ timezone "Etc/UTC" }}\n'
+        definer = head + (f'vacation "Other" {other.isoformat()}\n' if k % 2 else "") + body
+        user = head + f'vacation "Hol" {hol.isoformat()}\n' + body
+        hist = {"ops": [{"k": "run", "text": definer, "newparser": True}], "probe": user, "again": 0, "instrument": False,
+                "newparser": True, "seed": "0", "config": "native"}
+        co_meta.append(hist)
+        co_jobs.append(("native", [jline({"op": "hidden_history", "ops": hist["ops"], "probe": user, "again": 0, "outdir": outdir,
+                                          "instrument": False, "newparser": True, "struct": False})], {"PYTHONHASHSEED": "0"}))
+        co_jobs.append(("native", [jline({"op": "hidden_probe", "probe": user, "again": 0, "outdir": outdir, "struct": False})], {"PYTHONHASHSEED": "0"}))
+    n_macro = 4 if quick else 24
     co_out = par(chk, co_jobs)
     carry = {"cases": 0, "name_use": 0, "effort_use": 0, "fresh_rejected": 0, "differences": 0}
     for k, hist in enumerate(co_meta):
@@ -427,12 +447,12 @@ def run(chk):
             raise HarnessFault(f"carry-over stream op failed in the harness: {(a.get('_raw') or f.get('_raw'))[:300]}")
         pa = a["probe"]
         carry["cases"] += 1
-        carry["name_use" if k % 2 == 0 else "effort_use"] += 1
+        carry["calendar_twin" if k >= n_macro else "name_use" if k % 2 == 0 else "effort_use"] = carry.get("calendar_twin" if k >= n_macro else "name_use" if k % 2 == 0 else "effort_use", 0) + 1
         carry["fresh_rejected"] += 1 if f.get("exc") else 0
         if (pa.get("exc"), (pa.get("shas") or [None])[0], pa.get("cli")) != (f.get("exc"), (f.get("shas") or [None])[0], f.get("cli")):
             carry["differences"] += 1
             found.append(("a text parsed after another one in the same interpreter gives another result than alone in a fresh process "
-                          "(a macro the earlier text defined is expanded in the later one)",
+                          "(something the earlier text defined or declared — a macro, the project calendar's holidays — is used for the later one)",
                           {"history": flat_history(hist), "text": hist["probe"], "after_history": [pa.get("exc"), pa.get("shas"), pa.get("cli")],
                            "fresh": [f.get("exc"), f.get("shas"), f.get("cli")]}))
     st["carry_over"] = carry
